@@ -51,6 +51,7 @@ static struct pfx_table *tm_live_pfx;
 static struct spki_table *tm_live_spki;
 static bool tm_fail_enabled;        /* table operations may report an internal error (allocation failure) */
 static unsigned int tm_live_pfx_writes, tm_live_spki_writes; /* mutations of the LIVE tables */
+static bool tm_swap_seen_pfx, tm_swap_seen_spki;
 
 static int tm_pid(const struct pfx_table *t)
 {
@@ -319,6 +320,7 @@ void pfx_table_swap(struct pfx_table *a, struct pfx_table *b)
 	tm_pfx0 = tm_pfx1;
 	tm_pfx1 = tmp;
 	tm_live_pfx_writes++;
+	tm_swap_seen_pfx = true;
 }
 
 void pfx_table_notify_diff(struct pfx_table *new_table, struct pfx_table *old_table, const struct rtr_socket *s)
@@ -442,6 +444,7 @@ void spki_table_swap(struct spki_table *a, struct spki_table *b)
 	tm_spki0 = tm_spki1;
 	tm_spki1 = tmp;
 	tm_live_spki_writes++;
+	tm_swap_seen_spki = true;
 }
 
 void spki_table_notify_diff(struct spki_table *new_table, struct spki_table *old_table, const struct rtr_socket *s)
